@@ -67,7 +67,7 @@ theorem walk_cache_equiv {σ : Type} (sh : Shape) (cb : Callback σ) (c c0 : Cac
 theorem searchNext_cache_equiv (sh : Shape) (exec : Exec) (fuel : Nat) (c c0 : Cache) (s : SearchSt) (d : Int)
     (h : Equiv c c0) : Equiv c (searchNext sh exec fuel c0 s d).cache := by
   unfold searchNext
-  have hw := walk_cache_equiv sh (callbackOf exec d) c c0 fuel (prepare sh s d) (prepare sh s d).startPgno
+  have hw := walk_cache_equiv sh (callbackOf sh exec d) c c0 fuel (prepare sh s d) (prepare sh s d).startPgno
     (prepare sh s d).startSubno (dirOf d) h
   simp only
   split <;> exact hw
@@ -82,8 +82,8 @@ theorem highlight_start (s : SearchSt) (pgno : Nat) (e : Entry) (first ms me : N
     (highlight s pgno e first ms me).startPgno = pgno ∧ (highlight s pgno e first ms me).startSubno = e.subno := by
   unfold highlight; exact ⟨rfl, rfl⟩
 
-theorem pageFwd_dir (exec : Exec) (s : SearchSt) (p : Nat) (e : Entry) (w : Bool) :
-    (pageFwd exec s p e w).2.dir = s.dir := by
+theorem pageFwd_dir (sh : Shape) (exec : Exec) (s : SearchSt) (p : Nat) (e : Entry) (w : Bool) :
+    (pageFwd sh exec s p e w).2.dir = s.dir := by
   unfold pageFwd
   by_cases h1 : stopFwd s p e w = true
   · simp [h1]
@@ -97,12 +97,12 @@ theorem pageFwd_dir (exec : Exec) (s : SearchSt) (p : Nat) (e : Entry) (w : Bool
         by_cases h4 : (hayFwd e.text (cursorRow s p e) s.col0).2 ≥ (hayFwd e.text (cursorRow s p e) s.col0).1.length
         · simp [h4]
         · simp only [h4, if_false]
-          cases hx : exec {} ((hayFwd e.text (cursorRow s p e) s.col0).1.drop (hayFwd e.text (cursorRow s p e) s.col0).2) with
+          cases hx : exec (fwdFlags sh (hayFwd e.text (cursorRow s p e) s.col0).1 (hayFwd e.text (cursorRow s p e) s.col0).2) ((hayFwd e.text (cursorRow s p e) s.col0).1.drop (hayFwd e.text (cursorRow s p e) s.col0).2) with
           | none => rfl
           | some mm => obtain ⟨ms, me⟩ := mm; simp only; rw [highlight_dir]
 
-theorem runPos_fwd_dir (exec : Exec) (c : Cache) : ∀ (L : List Pos) (s : SearchSt),
-    (runPos (pageFwd exec) c L s).2.dir = s.dir := by
+theorem runPos_fwd_dir (sh : Shape) (exec : Exec) (c : Cache) : ∀ (L : List Pos) (s : SearchSt),
+    (runPos (pageFwd sh exec) c L s).2.dir = s.dir := by
   intro L
   induction L with
   | nil => intro s; rfl
@@ -114,8 +114,8 @@ theorem runPos_fwd_dir (exec : Exec) (c : Cache) : ∀ (L : List Pos) (s : Searc
     | none => simp only; exact ih s
     | some ea =>
       simp only
-      have hd := pageFwd_dir exec s ap.toNat ea aw
-      generalize pageFwd exec s ap.toNat ea aw = rs at hd
+      have hd := pageFwd_dir sh exec s ap.toNat ea aw
+      generalize pageFwd sh exec s ap.toNat ea aw = rs at hd
       obtain ⟨r1, s1⟩ := rs
       simp only at hd ⊢
       by_cases hr1 : r1 ≠ 0
@@ -169,16 +169,16 @@ theorem pass_step (sh : Shape) (exec : Exec) (c c' : Cache) (s : SearchSt) (heq 
   rw [searchNext_factors sh exec c' s 1 hne hp' hok'] at h
   have hr1 := statusOf_success h
   have hdir : dirOf 1 = 1 := by decide
-  have hcb : callbackOf exec 1 = pageFwd exec := by unfold callbackOf; simp
+  have hcb : callbackOf sh exec 1 = pageFwd sh exec := by unfold callbackOf; simp
   rw [hdir, hcb, hprep] at hr1 hst
-  have hdirL := runPos_fwd_dir exec c' (walkPositions sh c' s.startPgno s.startSubno 1) s
-  generalize hrp : runPos (pageFwd exec) c' (walkPositions sh c' s.startPgno s.startSubno 1) s = rp at hr1 hst hdirL
+  have hdirL := runPos_fwd_dir sh exec c' (walkPositions sh c' s.startPgno s.startSubno 1) s
+  generalize hrp : runPos (pageFwd sh exec) c' (walkPositions sh c' s.startPgno s.startSubno 1) s = rp at hr1 hst hdirL
   obtain ⟨r, sf⟩ := rp
   simp only at hr1 hst hdirL
   subst hr1
   have hst' : (searchNext sh exec walkFuel c' s 1).st = sf := by rw [hst]; simp
   rw [hst']
-  obtain ⟨pre, x, post, e, s0, hL, hlx, hfz, hcall, _⟩ := runPos_hit_fwd exec c' _ _ _ _ hrp (by decide)
+  obtain ⟨pre, x, post, e, s0, hL, hlx, hfz, hcall, _⟩ := runPos_hit_fwd sh exec c' _ _ _ _ hrp (by decide)
   obtain ⟨xp, xs, xw⟩ := x
   simp only at hlx hcall
   obtain ⟨hlop, ms, me, hex, hsf⟩ := pageFwd_one hcall
@@ -211,7 +211,7 @@ theorem pass_step (sh : Shape) (exec : Exec) (c c' : Cache) (s : SearchSt) (heq 
       · -- cursor at the top of the page: the whole text was searched
         refine ⟨e, hlx, hlop, ?_⟩
         have hrow : cursorRow s0 xp.toNat e = 1 := by unfold cursorRow; rw [if_pos hk, hfz.r, hr]
-        rw [hrow, hfz.c, hc, hayFwd_first_fresh, List.drop_zero, hayFwd_fst_indep e.text 1 0 (-1) 0] at hex
+        rw [hrow, hfz.c, hc, hayFwd_first_fresh, List.drop_zero, fwdFlags_zero, hayFwd_fst_indep e.text 1 0 (-1) 0] at hex
         rw [hex]; rfl
       · -- the start position is the page the previous call returned
         obtain ⟨es, hles, hlops, hsomes⟩ := hm
@@ -226,7 +226,7 @@ theorem pass_step (sh : Shape) (exec : Exec) (c c' : Cache) (s : SearchSt) (heq 
     · -- another page: no cursor, the whole text was searched
       refine ⟨e, hlx, hlop, ?_⟩
       have hrow : cursorRow s0 xp.toNat e = -1 := by unfold cursorRow; rw [if_neg hk]
-      rw [hrow, hayFwd_first_nocursor, List.drop_zero, hayFwd_fst_indep e.text (-1) s0.col0 (-1) 0] at hex
+      rw [hrow, hayFwd_first_nocursor, List.drop_zero, fwdFlags_zero, hayFwd_fst_indep e.text (-1) s0.col0 (-1) 0] at hex
       rw [hex]; rfl
   -- the context the call leaves behind
   have hsfdir : sf.dir = 1 := by rw [hdirL]; exact hinv.dir
